@@ -686,6 +686,101 @@ fn t_reader(rng: &mut Rng, stats: &mut Stats) {
 	}
 }
 
+/// What FOLLOWS the last block is data too: a second complete container file (same schema in another spelling, another
+/// schema altogether, the same file again), bytes that merely begin like a file header, a header cut short. Whatever
+/// the reader makes of it — an error, an end, more values — no memory error may follow, also when every other handle
+/// on the schema is gone and the reader is polled again and again.
+fn t_tail(rng: &mut Rng, stats: &mut Stats) {
+	let ty = gen_small_schema(rng);
+	let env = Env::build(&ty);
+	let json = ast::to_json(&ty);
+	let schema: Schema = json.parse().unwrap_or_else(|e| mismatch!("schema rejected: {e}"));
+	let vals: Vec<Val> = (0..1 + rng.usize(3)).map(|_| gen_one(rng, &env, &ty)).collect();
+	let (codec, _) = pick_codec(rng);
+	let mut file = make_file(&schema, &env, &ty, &vals, codec, rng);
+	let first_len = file.len();
+	let tail: Vec<u8> = match rng.below(6) {
+		0 => {
+			stats.op("tail:second-file-same-schema-other-spelling");
+			let pretty = serde_json::to_string_pretty(&serde_json::from_str::<serde_json::Value>(&json).unwrap()).unwrap();
+			let respelled: Schema = pretty.parse().unwrap_or_else(|e| mismatch!("respelled schema rejected: {e}"));
+			let (c2, _) = pick_codec(rng);
+			make_file(&respelled, &env, &ty, &vals, c2, rng)
+		}
+		1 | 2 => {
+			stats.op("tail:second-file-other-schema");
+			let ty2 = gen_small_schema(rng);
+			let env2 = Env::build(&ty2);
+			let s2: Schema = ast::to_json(&ty2).parse().unwrap_or_else(|e| mismatch!("schema rejected: {e}"));
+			let v2: Vec<Val> = (0..1 + rng.usize(3)).map(|_| gen_one(rng, &env2, &ty2)).collect();
+			let (c2, _) = pick_codec(rng);
+			make_file(&s2, &env2, &ty2, &v2, c2, rng)
+		}
+		3 => {
+			stats.op("tail:same-file-again");
+			file.clone()
+		}
+		4 => {
+			stats.op("tail:header-cut-short");
+			let n = 4 + rng.usize(file.len().min(60));
+			file[..n.min(file.len())].to_vec()
+		}
+		_ => {
+			stats.op("tail:magic-then-garbage");
+			let mut t = b"Obj\x01".to_vec();
+			let n = rng.usize(40);
+			t.extend(rng.bytes(n));
+			t
+		}
+	};
+	file.extend_from_slice(&tail);
+	drop(schema);
+	let polls = 3 + rng.usize(6);
+	let drop_handle_first = rng.bool();
+	if rng.bool() {
+		let mut reader = Reader::from_slice(&file).unwrap_or_else(|e| mismatch!("tail: from_slice: {e}"));
+		let handle = reader.schema().clone();
+		if drop_handle_first {
+			drop(handle);
+		}
+		for (i, v) in vals.iter().enumerate() {
+			let ctx = CapCtx::new(&env);
+			match reader.deserialize_seed_next(Capture { ty: &ty, ctx: &ctx }) {
+				Ok(Some(got)) if &got == v => {}
+				other => mismatch!("tail: value {i} of the first file: {:?}", other.map_err(|e| e.to_string())),
+			}
+		}
+		// whatever comes now is the reader's business: errors, end of stream, or values of the second file
+		for _ in 0..polls {
+			let _ = reader.deserialize_next::<serde::de::IgnoredAny>().map(|o| o.is_some()).map_err(|e| e.to_string());
+			let ctx = CapCtx::new(&env);
+			let _ = reader.deserialize_seed_next(Capture { ty: &ty, ctx: &ctx }).map_err(|e| e.to_string());
+			let _ = reader.schema().json().len();
+		}
+	} else {
+		let cap = *rng.pick(&[1usize, 5, 64, 8192]);
+		let mut reader = Reader::from_reader(std::io::BufReader::with_capacity(cap, std::io::Cursor::new(file.clone()))).unwrap_or_else(|e| mismatch!("tail: from_reader: {e}"));
+		let handle = reader.schema().clone();
+		if drop_handle_first {
+			drop(handle);
+		}
+		for (i, v) in vals.iter().enumerate() {
+			let ctx = CapCtx::new(&env);
+			match reader.deserialize_seed_next(Capture { ty: &ty, ctx: &ctx }) {
+				Ok(Some(got)) if &got == v => {}
+				other => mismatch!("tail: value {i} of the first file: {:?}", other.map_err(|e| e.to_string())),
+			}
+		}
+		for _ in 0..polls {
+			let _ = reader.deserialize_next::<serde::de::IgnoredAny>().map(|o| o.is_some()).map_err(|e| e.to_string());
+			let ctx = CapCtx::new(&env);
+			let _ = reader.deserialize_seed_next(Capture { ty: &ty, ctx: &ctx }).map_err(|e| e.to_string());
+			let _ = reader.schema().json().len();
+		}
+	}
+	let _ = first_len;
+}
+
 /// A reader is an ordinary value: it may be moved at any moment between two calls — out of a Box (the heap slot is
 /// freed), by a Vec that reallocates, by a swap with another reader, by being returned from a function — and must go on
 /// exactly as before. Whatever it keeps between calls must therefore not point into the Reader value itself.
@@ -1477,15 +1572,16 @@ fn main() {
 		let mut rng = Rng::for_run(seed, "C10", i);
 		let t = match mode {
 			"threads-only" => 5,
-			"no-threads" => match rng.below(13) {
+			"no-threads" => match rng.below(14) {
 				5 => 7,
 				6 | 7 => 9,
 				8 | 9 => 11,
 				10 | 11 => 13,
 				12 => 15,
+				13 => 16,
 				x => x,
 			},
-			_ => rng.below(16),
+			_ => rng.below(17),
 		};
 		let name = match t {
 			0 => {
@@ -1527,6 +1623,10 @@ fn main() {
 			15 => {
 				t_long(&mut rng, &mut stats);
 				"long"
+			}
+			16 => {
+				t_tail(&mut rng, &mut stats);
+				"tail"
 			}
 			_ => {
 				t_threads(&mut rng, &mut stats);
